@@ -122,7 +122,7 @@ def observed_uids(code, out):
             else:
                 i += 1
         return us
-    if code == ug.JOIN and out[0] == 21:
+    if code in (ug.JOIN, ug.CS_DUMP) and out[0] == 21:
         return [out[i + 1] for i in range(2, len(out) - 2, 3)]
     if code == ug.SLICE and out[0] == 17 and len(out) >= 2:
         if out[1] == 1:
@@ -414,7 +414,8 @@ def check_unwind(pid, tier, seed):
                 a = r["hist"][i][1]
                 if code in (ug.CLEAR, ug.DROP_STORAGE, ug.REMOVE, ug.INSERT) and a and 0 <= a[0] < 16:
                     fired["panicked in %s of %s" % (ug.NAMES[code], ug.kind_of(a[0]))] += 1
-    for need in [ug.NAMES[c] for c in sorted(ug.DESTROYING)] + ["arm_fault", "get_all", "join", "slice", "mask"] + \
+    for need in [ug.NAMES[c] for c in sorted(ug.DESTROYING)] + ["arm_fault", "get_all", "join", "slice", "mask",
+                                                                   "changeset.join"] + \
             ["storage:" + s for s in ug.SID_NAMES]:
         if hist[need] == 0:
             proof["failures"].append("generator bucket empty: " + need)
